@@ -5,6 +5,7 @@ package govc
 import (
 	"fmt"
 	"go/types"
+	"regexp"
 	"strings"
 
 	"verif/internal/smt"
@@ -43,7 +44,18 @@ func qual(p *types.Package) string {
 	return path
 }
 
-func typeStr(t types.Type) string { return types.TypeString(t, qual) }
+var byteWordRe = regexp.MustCompile(`\bbyte\b`)
+
+// typeStr prints a type with short package qualifiers; the alias byte is printed as uint8 so that
+// heap names do not depend on how a declaration happens to spell the type.
+func typeStr(t types.Type) string { return normType(types.TypeString(t, qual)) }
+
+func normType(s string) string {
+	if strings.Contains(s, "byte") {
+		return byteWordRe.ReplaceAllString(s, "uint8")
+	}
+	return s
+}
 
 func isU256(t types.Type) bool {
 	n, ok := t.(*types.Named)
